@@ -5,10 +5,40 @@ import json, subprocess
 PROPS = [json.loads(l)["id"] for l in open("/verif/properties.jsonl")]
 
 # id -> (level, technique, level text, level note, design ref)
+TRUST = "Trusted: the harness (SimIo, virtual time, executor), the independent refcodec decoder, the reference broker, the verif snapshot hook for acceptance of cancelled requests. Held means held on the executions observed; nothing is proved."
+def ck(level, tech, text, ref):
+    return (level, tech, text, TRUST, ref)
 CHECKS = {
- "C01": ("exploration", "online trace monitor: independent strict MQTT 5 decoder over every byte written to the simulated transport, under seeded fault/partial-write/cancellation schedules",
-         "Every connection's outbound stream from thousands of generated hostile executions of the real client is decoded by an independent strict decoder; a violation is a concrete replayable execution. Held = held on the executions observed.",
-         "Trusted: the harness (SimIo, virtual time, executor), refcodec decoder, the reference broker. QoS 0 cancellation and Ok(0) writes are out of scope as documented.", "DESIGN.md 3/C01"),
+ "C01": ck("exploration", "online trace monitor: independent strict MQTT 5 decoder over every byte written to the simulated transport, under seeded fault/partial-write/cancellation schedules",
+         "Every connection's outbound stream from thousands of generated hostile executions of the real client is decoded by an independent strict decoder; a violation is a concrete replayable execution.", "DESIGN.md 3/C01"),
+ "C02": ck("fault_enumeration", "offline history monitor (per accepted message: transmissions, acks consumed) over executions with injected connection loss and resumed reconnects",
+         "Per accepted QoS 1 message the recorded history is checked for: one transmission per connection, byte identity except DUP, order, no send after PUBACK, replay on every drained resumed connection, completion after a benign continuation. Connection loss is injected by seeded faults at random I/O indices, broker close/DISCONNECT, handle drop/forget.", "DESIGN.md 3/C02"),
+ "C03": ck("fault_enumeration", "offline history monitor of the four-step QoS 2 exchange under injected connection loss between any two steps",
+         "QoS 2-heavy histories with PUBREC/PUBCOMP in arbitrary order and failure codes; PUBREL only after successful PUBREC, never PUBLISH after PUBREC, PUBREL replay order = PUBREC arrival order, exactly one replay per resumed drained connection.", "DESIGN.md 3/C03"),
+ "C04": ck("exploration", "reference receiver model (expected deliveries and acknowledgement sequence) compared with observed deliveries and decoded acks",
+         "The reference broker originates publishes of all QoS / identifier / property / size shapes plus retransmissions and PUBRELs; a small deterministic receiver model predicts what must be delivered and which acks must appear in which order.", "DESIGN.md 3/C04"),
+ "C05": ck("exploration", "trace monitor over sequences of connections with arbitrary session-present answers and failed handshakes",
+         "CONNECT flags / client id, connect event, handle invalidation, absence of stale transmissions, complete in-order replay are judged on every connection of every generated history.", "DESIGN.md 3/C05"),
+ "C06": ck("exploration", "conservation monitor (window occupancy in the broker's view) evaluated at every PUBLISH completion",
+         "unresolved = PUBLISHes completed on the wire + exchanges entering the connection in release phase - acks the broker has sent; must never exceed the CONNACK's Receive Maximum; refusals must leave no trace; no exchange dropped.", "DESIGN.md 3/C06"),
+ "C07": ck("exploration", "invariant monitor: reference in-use identifier set vs. identifier of every accepted request, on histories crossing the 16-bit wrap",
+         "Wrap histories are produced both with the verif setter and by really burning 65535 identifiers.", "DESIGN.md 3/C07"),
+ "C09": ck("exploration", "request/wire differential: structural comparison of each request with the independent decoding of the bytes it produced",
+         "Boundary scripts (remaining-length boundaries up to 2 MiB, 65535/65536-byte fields, all option combinations, too-small arenas) plus random programs.", "DESIGN.md 3/C09"),
+ "C11": ck("fault_enumeration", "fault injection at every I/O call index + latch monitor (results and transport call counters after the first fatal result)",
+         "Every base program is re-executed once per I/O call index with a fault there; after the first latching result all later operations must fail fast and the transport call counter must not move.", "DESIGN.md 3/C11"),
+ "C12": ck("fault_enumeration", "fault and cancellation injection at every await index of prior histories, followed by a reconnect + round-trip probe against the reference broker",
+         "connect() after any prefix must succeed, start with a whole CONNECT, carry nothing over and leave the session usable.", "DESIGN.md 3/C12"),
+ "C13": ck("fault_enumeration", "differential twin runs: uncancelled reference vs. future dropped at every await index, outputs compared",
+         "For every await index the reference execution of the final request passed through, a variant drops the future there (optionally after earlier cancelled attempts) and continues; decoded packets and deliveries must equal the reference.", "DESIGN.md 3/C13"),
+ "C14": ck("exploration", "trace monitor of packet sizes against the negotiated limits, requests sized within +-3 bytes of the limit",
+         "Every packet after CONNACK is measured against the broker's Maximum Packet Size; refusals must leave no trace; oversize inbound packets must be rejected.", "DESIGN.md 3/C14"),
+ "C15": ck("exploration", "differential twin runs: whole-buffer reference vs. re-fragmented transport (all 2^(n-1) chunkings for short streams)",
+         "Same recorded program under different read/write fragmentation must give identical results, deliveries and outbound bytes.", "DESIGN.md 3/C15"),
+ "C16": ck("fault_enumeration", "bounded-progress monitor over a benign continuation appended to every explored end state; per-call I/O watchdog",
+         "Liveness restated as: idle, quiescent and complete within N polls under a responsive broker; the unbounded 'eventually' is not decided.", "DESIGN.md 3/C16"),
+ "C18": ck("exploration", "reference model of handle status compared with is_pending/is_complete/is_invalidated after every step",
+         "Status of every handle is queried after every step of every history and compared with a model driven by consumed acks and fresh-session CONNACKs.", "DESIGN.md 3/C18"),
 }
 
 def main():
